@@ -14,6 +14,7 @@ import re
 
 from effects import Effects
 from facts import EngineError
+from flow import control_conditions
 from mir import callee_of, callee_paths, op_place, op_const, strip_generics
 from sym import Sym, show, strip_casts
 
@@ -203,6 +204,9 @@ def cols(ctx, crate, E):
                     if pl["l"] in seen:
                         continue
                     seen.add(pl["l"])
+                    # a value chosen by a match on a column depends on that column
+                    work.extend(control_conditions(fa, [d[0] for d in fa.defs().get(pl["l"], [])
+                                                        if d[2] != "partial"]))
                     for d in fa.defs().get(pl["l"], []):
                         if d[2] == "call":
                             t = d[3]
@@ -430,7 +434,7 @@ def _leaf_bits(fa, e):
 
 def _guard_bits(fa, S, pb, cores):
     """bits bound established for one of `cores` by comparisons that dominate block pb"""
-    from flow import bool_switch_targets
+    from flow import control_conditions, bool_switch_targets
     best = 128
     dom = fa.dominators().get(pb, ())
     for d in dom:
